@@ -301,6 +301,10 @@ func (m *Hosts) Advance(t time.Time) []Group {
 	return out
 }
 
+// TickAt runs one ageing pass with the clock value t without moving the model's clock: a pass that runs late (the process was
+// stopped for a while) sees every deadline at once.
+func (m *Hosts) TickAt(t time.Time) Group { return m.tick(t) }
+
 func (m *Hosts) tick(t time.Time) Group {
 	m.Ticks++
 	del := t.Add(-m.Purge)
